@@ -355,8 +355,10 @@ class CallsMixin:
                 if cc is None:
                     raise Unsupported(f"__init__ contract for {cls.__qualname__} needs a class contract")
                 obj.tag = self.ctx.fresh_name(cls.__name__.lower())
-                for f_, t_ in list(cc.fields.items()) + list(cc.ghost.items()):
+                for f_, t_ in cc.fields.items():
                     obj.fields[f_] = self.make_symbolic(t_, f"{obj.tag}.{f_}", assume_inv=False)
+                for g_, t_ in cc.ghost.items():
+                    obj.fields[g_] = False if t_ == "bool" else 0
                 self.register_shared(obj)
                 self.apply_contract(fc, [obj] + list(args), kwargs, fr)
             else:
